@@ -339,6 +339,14 @@ theorem makegrid_tail (e n : List Rat) (extras : List Arr2) (data : Option (List
         | ok v1 =>
           simp only [Option.getD_some, zip_snd v1 ds (checkNames_length _ _ _ hc)]
 
+/-- **Bridge.**  `get_ndim_horizontal_coords` as regenerated from the source, called with `*coordinates[:2]`, is the model's `ndimHorizontal`. -/
+theorem gen_get_ndim_eq_model (xy : List CoordArr) : star2 Gen.getNdimHorizontalCoords xy = ndimHorizontal xy := by
+  match xy with
+  | [] => rfl
+  | [a] => cases a <;> rfl
+  | [a, b] => cases a <;> cases b <;> rfl
+  | a :: b :: c :: r => cases a <;> cases b <;> rfl
+
 theorem allcloseRows_self (E : Arr2) :
     Gen.allcloseRows E E false = E.all fun row => row.length == (E.headD []).length && (List.zipWith allclose1 (E.headD []) row).all id := by
   simp [Gen.allcloseRows]
@@ -368,12 +376,13 @@ theorem gen_check_meshgrid_eq_model (cs : List CoordArr) : Gen.checkMeshgrid cs 
   simp only [allcloseRows_self, allcloseCols_self]
   exact two_checks _ _
 
-/-- **Bridge.**  `make_xarray_grid` as regenerated from the source (with the regenerated `meshgrid_to_1d`, `check_meshgrid` and `check_extra_coords_names`) is the
+/-- **Bridge.**  `make_xarray_grid` as regenerated from the source (with the regenerated `meshgrid_to_1d`, `check_meshgrid`, `get_ndim_horizontal_coords` and `check_extra_coords_names`) is the
     model's `makeGrid`, for 1-D and 2-D horizontal coordinates, any extras, data, names and distinct dimension names. -/
 theorem gen_make_xarray_grid_eq_model (east north : CoordArr) (extras : List Arr2) (data : Option (List Arr2)) (names : Option (List String))
     (dims : String × String) (exn : Option (List String)) (hd : dims.1 ≠ dims.2) :
     Gen.makeXarrayGrid (east :: north :: extras.map .d2) data names dims exn = makeGrid east north extras data names dims exn := by
   unfold Gen.makeXarrayGrid makeGrid
+  rw [gen_get_ndim_eq_model]
   cases east with
   | d1 e => cases north with
     | d1 n =>
